@@ -85,7 +85,18 @@ def load_known(prop):
     if not os.path.exists(p):
         return []
     data = json.load(open(p))
-    return [e for e in data.get("entries", []) if e.get("property") == prop and e.get("kind") == "finding"]
+    out = [e for e in data.get("entries", []) if e.get("property") == prop and e.get("kind") == "finding"]
+    for e in out:  # index for fast exact matching
+        m = e.get("match", {})
+        inputs = list(m.get("inputs", []))
+        if "input" in m:
+            inputs.append(m["input"])
+        e["_index"] = {json.dumps(_norm(x), sort_keys=True) for x in inputs}
+        obs = list(m.get("obligations", []))
+        if "obligation" in m:
+            obs.append(m["obligation"])
+        e["_obls"] = set(obs)
+    return out
 
 
 def _norm(x):
@@ -93,18 +104,13 @@ def _norm(x):
 
 
 def match_known(known, *, item=None, inp=None, obligation=None):
-    """A failure is a known finding only if it is the *listed* input of the listed item (or the listed
-    obligation name for a deductive obligation).  Anything else of the same property still alarms."""
+    """A failure is a known finding only if it is the *listed* input of the listed item (or a listed obligation name of a
+    deductive obligation).  Anything else of the same property still alarms."""
+    key = json.dumps(_norm(inp), sort_keys=True) if item is not None else None
     for e in known:
         m = e.get("match", {})
-        if obligation is not None and m.get("obligation") == obligation:
+        if obligation is not None and obligation in e["_obls"]:
             return e
-        if item is not None and m.get("item") == item:
-            inputs = m.get("inputs", [])
-            if "input" in m:
-                inputs = inputs + [m["input"]]
-            n = _norm(inp)
-            for cand in inputs:
-                if _norm(cand) == n:
-                    return e
+        if item is not None and m.get("item") == item and key in e["_index"]:
+            return e
     return None
